@@ -184,8 +184,16 @@ def run(tier):
     chk.exec_and_validate("T_SM2", g.cmds, sm2key, accel=True, families=("bits", "big"), tag="sm2")
     # static complement (B3): in the extracted listing no store targets an input region
     from . import c09
-    found = c09.analyse(chk, tier, ("C10",), light=True)
-    c09.report(chk, found, c09.strip_c09)
+    # If the abstract machine cannot interpret the current assembly (an opcode or operand form in no table, a mask
+    # value it does not compute) that is not a verdict: violations found by the recorded executions above stand;
+    # only when there are none is the run inconclusive (exit 2).
+    try:
+        found = c09.analyse(chk, tier, ("C10",), light=True)
+        c09.report(chk, found, c09.strip_c09)
+    except core.Infra as e:
+        if not chk.bad:
+            raise
+        chk.notes.append("static half not completed: %s" % str(e)[:300])
     return chk.finish(
         "model_checking",
         "every (alias, len, cap, need) shape reached by the small model MC_AEADBuf, concretised for Seal and Open "
